@@ -144,6 +144,29 @@ def run_case(c, d):
         fh.write(PROG % c['n'])
     q = subprocess.run([sys.executable, name], capture_output=True, text=True, env=e2, cwd=d2)
     out['explicit_rc'] = q.returncode
+    # ---- the same in a process whose locale encoding is not UTF-8, on a program with non-ASCII text in a profiled line
+    # (only for ASCII file names: a non-ASCII path cannot be named at all under such a locale)
+    if all(ord(ch) < 128 for ch in name):
+        d3 = os.path.join(d, 'explicit_c_locale')
+        os.makedirs(d3)
+        with open(os.path.join(d3, name), 'w', encoding='utf-8') as fh:
+            fh.write('# -*- coding: utf-8 -*-\n' + (PROG % c['n']).replace('total = 0', "total = len('\u00fc\u00f1\u00ef') - 3"))
+        e3 = dict(env, LINE_PROFILE='1', LC_ALL='C', LANG='C', PYTHONUTF8='0', PYTHONCOERCECLOCALE='0', PYTHONIOENCODING='utf-8')
+        q3 = subprocess.run([sys.executable, name], capture_output=True, env=e3, cwd=d3)
+        t3 = os.path.join(d3, 'profile_output.txt')
+        ts3 = [f for f in os.listdir(d3) if f.startswith('profile_output_') and f.endswith('.txt')]
+        r3 = {'rc': q3.returncode, 'txt': os.path.exists(t3), 'timestamped': bool(ts3), 'lprof': os.path.exists(os.path.join(d3, 'profile_output.lprof')),
+              'stderr': q3.stderr.decode('utf-8', 'replace')[-300:]}
+        if r3['txt']:
+            raw = open(t3, 'rb').read()
+            try:
+                txt = raw.decode('utf-8')
+                r3['utf8'] = True
+                r3['has_line'] = '\u00fc\u00f1\u00ef' in txt
+                r3['same_as_timestamped'] = bool(ts3) and open(os.path.join(d3, ts3[0]), 'rb').read() == raw
+            except UnicodeDecodeError:
+                r3['utf8'] = False
+        out['explicit_c_locale'] = r3
     txt = os.path.join(d2, 'profile_output.txt')
     out['explicit_txt'] = open(txt, encoding='utf-8').read() if os.path.exists(txt) else None
     ts = [f for f in os.listdir(d2) if f.startswith('profile_output_') and f.endswith('.txt')]
